@@ -389,6 +389,10 @@ def run(tape, prop, tier):
             elif hosts[0].lower() != want_host.lower():
                 r.violate('C16', 'host-field', 'stale-or-wrong:' + hop_kind, 'hop %d (%s): Host %r on a connection to %s (request target %r)'
                           % (hop, hop_kind, hosts[0], want_host, target))
+        # the login for the proxy is for the proxy: a request that reaches an origin (through a tunnel, or directly) must not carry it
+        if proxied != 'plain' and fd.get('proxy-authorization'):
+            r.violate('C16', 'credential-leak', 'proxy-authorization-to-origin:' + hop_kind,
+                      'hop %d (%s): Proxy-Authorization %r reached the origin %s (%s)' % (hop, hop_kind, fd['proxy-authorization'][0][:40], origin[2], proxied or 'direct'))
         # credentials
         auth = fd.get('authorization', [])
         host_here = '%s:%d' % (origin[2], origin[4]) if origin[4] != DEFAULT_PORT[origin[0]] else origin[2]
